@@ -269,6 +269,19 @@ func (w *decWalker) term(x ast.Expr) (string, error) {
 								return "copy(bytes)", nil
 							}
 						}
+						// append([]byte{}, payload...) / append([]byte(nil), payload...): a fresh slice holding a copy
+						switch a := ast.Unparen(t.Args[0]).(type) {
+						case *ast.CompositeLit:
+							if sl, ok := info.TypeOf(a).Underlying().(*types.Slice); ok && len(a.Elts) == 0 && basicKind(sl.Elem()) == types.Uint8 {
+								return "copy(bytes)", nil
+							}
+						case *ast.CallExpr:
+							if tv, ok := info.Types[a.Fun]; ok && tv.IsType() && len(a.Args) == 1 && types.ExprString(a.Args[0]) == "nil" {
+								if sl, ok := tv.Type.Underlying().(*types.Slice); ok && basicKind(sl.Elem()) == types.Uint8 {
+									return "copy(bytes)", nil
+								}
+							}
+						}
 						a0, err := w.term(t.Args[0])
 						if err != nil {
 							return "", err
@@ -903,6 +916,14 @@ func (w *decWalker) fixedRead(k int64, list []ast.Stmt, i *int) error {
 	if *i+2 >= len(list) {
 		return und("fixed-width read is incomplete")
 	}
+	// the cursor may be advanced before the read (`idx += k; V = …(dAtA[idx-k:idx])`): both orders stay behind the guard
+	advFirst := false
+	if adv0, ok := list[*i+1].(*ast.AssignStmt); ok && adv0.Tok == token.ADD_ASSIGN && len(adv0.Lhs) == 1 && w.is(adv0.Lhs[0], w.idx) {
+		if kk, ok := constInt(info, adv0.Rhs[0]); ok && kk == k {
+			advFirst = true
+			list = append(append(append([]ast.Stmt{}, list[:*i+1]...), list[*i+2], list[*i+1]), list[*i+3:]...)
+		}
+	}
 	as, ok := list[*i+1].(*ast.AssignStmt)
 	if !ok || len(as.Lhs) != 1 || len(as.Rhs) != 1 || as.Tok != token.ASSIGN {
 		return und("fixed-width read: assignment expected")
@@ -925,7 +946,26 @@ func (w *decWalker) fixedRead(k int64, list []ast.Stmt, i *int) error {
 		return fmt.Errorf("bounds guard covers %d bytes but the read is %s", k, q)
 	}
 	se, ok := ast.Unparen(call.Args[0]).(*ast.SliceExpr)
-	if !ok || !w.is(se.X, w.buf) || !w.is(se.Low, w.idx) || se.High != nil {
+	okSlice := ok && w.is(se.X, w.buf) && se.Max == nil
+	if okSlice {
+		if !advFirst {
+			// dAtA[idx:] or dAtA[idx:idx+k]
+			okSlice = w.is(se.Low, w.idx)
+			if okSlice && se.High != nil {
+				hk, isPlus := w.idxPlus(se.High)
+				okSlice = isPlus && hk == k
+			}
+		} else {
+			// dAtA[idx-k:idx] (or dAtA[idx-k:]) after idx += k
+			lo, isSub := ast.Unparen(se.Low).(*ast.BinaryExpr)
+			okSlice = isSub && lo.Op == token.SUB && w.is(lo.X, w.idx)
+			if okSlice {
+				lk, isK := constInt(info, lo.Y)
+				okSlice = isK && lk == k && (se.High == nil || w.is(se.High, w.idx))
+			}
+		}
+	}
+	if !okSlice {
 		return und("fixed-width read does not read at the cursor")
 	}
 	if T == nil {
